@@ -325,8 +325,8 @@ func thresholdFamily(c *Ctx, em *errModel, f *ssa.Function, varName, kind string
 			switch x := ins.(type) {
 			case *ssa.Call:
 				if kind == "handler" {
-					if h := em.Handlers[x.Common().StaticCallee()]; h != nil && h.FailIdx < len(x.Common().Args) {
-						if fl, known := constBool(x.Common().Args[h.FailIdx]); known && fl {
+					if h := em.Handlers[x.Common().StaticCallee()]; h != nil {
+						if fl, known := h.failureAt(x); known && fl {
 							reject[b] = true
 						}
 					}
